@@ -1,6 +1,7 @@
 package rt
 
 import (
+	"bytes"
 	"encoding/json"
 	"fmt"
 	"os"
@@ -19,6 +20,8 @@ type rtCase struct {
 	Response interface{} `json:"response"`
 	Mutation string      `json:"mutation,omitempty"`
 	Seed     int64       `json:"seed,omitempty"`
+	MustErr  bool        `json:"must_err,omitempty"`
+	ResponseRaw json.RawMessage `json:"-"`
 	HelperLeg bool       `json:"helper_leg,omitempty"`
 }
 
@@ -177,6 +180,13 @@ func run(prop, tier string, seed int64, outDir, replay string) (*core.Result, er
 			return nil, err
 		}
 		replayCase = &wrap.Replay
+		var rawWrap struct {
+			Replay struct {
+				Response json.RawMessage `json:"response"`
+			} `json:"replay"`
+		}
+		_ = json.Unmarshal(data, &rawWrap)
+		replayCase.ResponseRaw = rawWrap.Replay.Response
 		cases = []*conv.Case{replayCase.Case}
 	} else {
 		for i := 0; i < nProg; i++ {
@@ -226,10 +236,18 @@ func run(prop, tier string, seed int64, outDir, replay string) (*core.Result, er
 				}
 				raw, _ := json.Marshal(payload)
 				if replayCase != nil && replayCase.Response != nil {
-					raw, _ = json.Marshal(replayCase.Response)
 					if replayCase.Op != "" && replayCase.Op != op {
 						continue
 					}
+					raw = replayCase.ResponseRaw
+					// judge against the REPLAYED response (key order kept)
+					if o, err := parseOrdered(raw); err == nil {
+						if oo, ok := o.(*OObj); ok {
+							m.resp = oo
+						}
+					}
+					m.mut = replayCase.Mutation
+					m.mustEr = replayCase.MustErr
 				}
 				m.raw = raw
 				metas[id] = m
@@ -459,6 +477,55 @@ func run(prop, tier string, seed int64, outDir, replay string) (*core.Result, er
 	}
 	res.ModelCases = modelObs
 	return res, nil
+}
+
+// parseOrdered reads JSON keeping the order of object keys.
+func parseOrdered(raw []byte) (interface{}, error) {
+	dec := json.NewDecoder(bytes.NewReader(raw))
+	dec.UseNumber()
+	var val func() (interface{}, error)
+	val = func() (interface{}, error) {
+		tok, err := dec.Token()
+		if err != nil {
+			return nil, err
+		}
+		switch t := tok.(type) {
+		case json.Delim:
+			switch t {
+			case '{':
+				o := &OObj{Vals: map[string]interface{}{}}
+				for dec.More() {
+					kt, err := dec.Token()
+					if err != nil {
+						return nil, err
+					}
+					v, err := val()
+					if err != nil {
+						return nil, err
+					}
+					o.Set(kt.(string), v)
+				}
+				_, err := dec.Token()
+				return o, err
+			case '[':
+				out := []interface{}{}
+				for dec.More() {
+					v, err := val()
+					if err != nil {
+						return nil, err
+					}
+					out = append(out, v)
+				}
+				_, err := dec.Token()
+				return out, err
+			}
+		case json.Number:
+			f, _ := t.Float64()
+			return f, nil
+		}
+		return tok, nil
+	}
+	return val()
 }
 
 func coqStr(s string) string { return fmt.Sprintf("(b %q)", s) }
